@@ -61,6 +61,10 @@ pub struct Case {
     /// started from the template with try_from_template_as_tsig_subsequent(B)
     #[serde(default)]
     pub template_from: Option<(u8, Vec<u8>)>,
+    /// this many extra A records in the additional section (ARCOUNT around multiples of 256: the
+    /// digest covers the header with ARCOUNT decremented, a 16-bit subtraction)
+    #[serde(default)]
+    pub extra_additional: u16,
 }
 
 #[derive(Clone, Debug, PartialEq, Eq)]
@@ -204,14 +208,14 @@ pub fn oracle(c: &Case, st: &mut Stats) -> Verdict {
     let time = c.time & 0xffff_ffff_ffff;
     let server_time = c.server_time & 0xffff_ffff_ffff;
     // 1. build and sign with the Writer
-    let mut buf = vec![0u8; 8192];
-    let mut buf2 = vec![0u8; 8192];
+    let mut buf = vec![0u8; 24576];
+    let mut buf2 = vec![0u8; 24576];
     let detour = match (&c.template_from, &c.mode) {
         (Some((sel, a)), Mode::Subsequent(b)) => Some((*sel, a.clone(), b.clone())),
         _ => None,
     };
     let built = catch(|| {
-        let mut w = Writer::new(&mut buf, 8192).unwrap();
+        let mut w = Writer::new(&mut buf, 24576).unwrap();
         w.set_id(c.id);
         w.set_qr(c.flags & 0x8000 != 0);
         w.set_rd(c.flags & 0x0100 != 0);
@@ -225,6 +229,12 @@ pub fn oracle(c: &Case, st: &mut Stats) -> Verdict {
         for (owner, rtype, class, ttl, rdata) in &c.records {
             let rd: &Rdata = rdata.as_slice().try_into().unwrap();
             w.add_answer_rr(HintedName::new(Hint::None, &qn(owner)), Type::from(*rtype), Class::from(*class), Ttl::from(*ttl), rd, None)
+                .map_err(|e| format!("{e:?}"))?;
+        }
+        for i in 0..c.extra_additional {
+            let octets = [10u8, 9, (i >> 8) as u8, i as u8];
+            let rd: &Rdata = (&octets[..]).try_into().unwrap();
+            w.add_additional_rr(HintedName::new(Hint::None, &qn(&c.qname)), Type::from(1), Class::from(1), Ttl::from(60), rd, None)
                 .map_err(|e| format!("{e:?}"))?;
         }
         if c.edns {
@@ -280,6 +290,12 @@ pub fn oracle(c: &Case, st: &mut Stats) -> Verdict {
     let full = if second { buf2[..len].to_vec() } else { buf[..len].to_vec() };
     if let Some((sel, _, _)) = &detour {
         st.class(["subsequent-from-template-of-a-request-writer", "subsequent-from-template-of-a-response-writer", "subsequent-from-template-of-a-subsequent-writer"][(*sel as usize).min(2)]);
+    }
+    if c.extra_additional > 0 {
+        let ar = u16::from_be_bytes([full[10], full[11]]);
+        if ar & 0xff <= 1 || ar & 0xff == 0xff {
+            st.class("ARCOUNT-low-octet-0-1-or-255");
+        }
     }
     st.eval();
     let d = match decode_message(&full) {
@@ -395,7 +411,10 @@ pub fn oracle(c: &Case, st: &mut Stats) -> Verdict {
     }
 
     // 4. single-octet corruption
-    let positions: Vec<usize> = if c.all_positions {
+    // (messages padded with hundreds of additional records: header, the last 300 octets and samples)
+    let positions: Vec<usize> = if c.all_positions && c.extra_additional > 0 {
+        (0..12).chain(full.len().saturating_sub(300)..full.len()).chain(c.corrupt_sel.iter().map(|s| crate::gen::pick(*s, full.len()))).collect()
+    } else if c.all_positions {
         (0..full.len()).collect()
     } else {
         c.corrupt_sel.iter().map(|s| crate::gen::pick(*s, full.len())).collect()
@@ -403,7 +422,7 @@ pub fn oracle(c: &Case, st: &mut Stats) -> Verdict {
     let mut still_parse = 0u64;
     for (i, p) in positions.iter().enumerate() {
         let mut m = full.clone();
-        let x = if c.all_positions { 1u8 << (p % 8) } else { 1u8 << ((c.corrupt_sel[i] >> 3) % 8) };
+        let x = if c.all_positions { 1u8 << (p % 8) } else { 1u8 << ((c.corrupt_sel[i % c.corrupt_sel.len()] >> 3) % 8) };
         m[*p] ^= x;
         st.eval();
         let want = ref_verify(&m, &c.mode, &c.key, now_ok);
@@ -462,9 +481,9 @@ fn case_strategy(all_positions: bool) -> impl Strategy<Value = Case> {
             any::<u64>(),
             prop_oneof![3 => -400i64..=400, 1 => any::<i32>().prop_map(|v| v as i64)],
         ),
-        (prop::collection::vec(any::<u16>(), 24), prop::option::weighted(0.6, (0u8..3, mac()))),
+        (prop::collection::vec(any::<u16>(), 24), prop::option::weighted(0.6, (0u8..3, mac())), prop_oneof![30 => Just(0u16), 1 => 253u16..=257, 1 => 509u16..=513, 1 => 1u16..600]),
     )
-        .prop_map(move |((id, flags, qname, recs, edns), (key_name, key, sha256, mode), (time, fudge, original_id, error, server_time, now_offset), (corrupt_sel, template_from))| {
+        .prop_map(move |((id, flags, qname, recs, edns), (key_name, key, sha256, mode), (time, fudge, original_id, error, server_time, now_offset), (corrupt_sel, template_from, extra_additional))| {
             let records = recs
                 .into_iter()
                 .filter(|(_, (t, _, _), _)| *t != mr::T_OPT && *t != mr::T_TSIG)
@@ -489,6 +508,7 @@ fn case_strategy(all_positions: bool) -> impl Strategy<Value = Case> {
                 corrupt_sel,
                 all_positions,
                 template_from,
+                extra_additional,
             }
         })
 }
